@@ -257,9 +257,30 @@ def tag(v):
     return {'other': type(v).__name__}
 
 
-def deep(v, lib=None):
-    """any value -> canonical JSON-able form (cycles cut)"""
-    return progen.value_to_wire(v, lib)
+def deep(v, lib=None, depth=0):
+    """any value -> canonical JSON-able form (cycles cut; ints as hex text: decimal text above 4300 digits is refused by
+    CPython itself, also inside json.dumps)"""
+    if depth > 30:
+        return '<cycle>'
+    if v is None or isinstance(v, (bool, str)):
+        return v
+    if isinstance(v, int):
+        return {'ih': hex(v)}
+    if isinstance(v, float):
+        return {'f': float_wire(v)}
+    if isinstance(v, datetime.date):
+        return {'d': repr(v)}
+    if isinstance(v, list):
+        return [deep(x, lib, depth + 1) for x in v]
+    if isinstance(v, dict):
+        return {'o': [[str(k), deep(v[k], lib, depth + 1)] for k in sorted(v, key=str)]}
+    if callable(v):
+        if lib is not None:
+            for name, fn in lib.items():
+                if fn is v:
+                    return {'fn': name}
+        return {'fn': getattr(v, '__name__', 'other')}
+    return {'other': type(v).__name__}
 
 
 def I(n):
@@ -299,6 +320,7 @@ OTHER_SPECS = [
     ['fn', 'arrayNew'], ['regex', 'a+'],
 ]
 ALL_SPECS = NUM_SPECS + OTHER_SPECS
+NEST_PARTNERS = [S(''), S('abc'), I(1), ['none'], ['list', []], ['nest', 40], ['nest', 5000], ['cyclic_list'], ['dict', []]]
 OPS = ['**', '*', '/', '%', '+', '-', '<=', '<', '>=', '>', '==', '!=']
 EXC_MAP = {'FloatingPointError': 'OverflowError'}
 
@@ -430,8 +452,9 @@ def binop_triples(ctx, n_random, exhaustive):
         for op in OPS:
             for sa in ALL_SPECS:
                 for sb in ALL_SPECS:
-                    if sa[0] == 'nest' and sb[0] == 'nest' and sa[1] + sb[1] > 6000 and op not in ('==', '<'):
-                        continue
+                    big_a, big_b = sa == ['nest', 5000], sb == ['nest', 5000]
+                    if (big_a and sb not in NEST_PARTNERS) or (big_b and sa not in NEST_PARTNERS):
+                        continue                       # a 5000-cell heap per request: only against a few partners
                     triples.append((op, sa, sb))
     else:
         # every op x every number pair class is the core; sample the rest
@@ -684,7 +707,8 @@ class AdvGen(progen.Gen):
             base = rng.choice([progen.num(0), g(progen.wf_binary('-', v, v)), progen.num(2), progen.num(4)])
             return progen.wf_binary('**', base, g(progen.wf_binary('-', progen.num(0), progen.num(rng.randint(1, 3)))))
         if k == 'powvar':
-            return progen.wf_binary('**', self.anyv(), progen.num(rng.randint(0, 3)))
+            # exponent 0 / 1 only: `v = v ** 3` inside a loop would make the exact rational of the model explode
+            return progen.wf_binary('**', self.anyv(), progen.num(rng.randint(0, 1)))
         if k == 'noncallable':
             return progen.call(rng.choice(NUMV), *[self.atom() for _ in range(rng.randint(0, 2))])
         if k == 'undefined':
@@ -888,8 +912,8 @@ ADV_LINES = [
     "r1 = '' + (hx + hx)", "r1 = hx + ''", "r1 = '' + arrayNew(hx)", "r1 = '' + objectNew('k', hx)", 'r1 = hx == hx', 'r1 = hx < 0.5',
     'r1 = 0 - hx', 'r1 = -hx', 'r1 = 1 / 0', 'r1 = 1 % 0', 'r1 = 0 ** (0 - 1)', 'r1 = (0 - 8) ** 0.5', 'r1 = 10 ** 1000', 'r1 = 10 ** 400',
     'r1 = 2 ** 1024.0', 'r1 = (0 - 2) ** 1023', 'r1 = nz ** (0 - 1)', 'r1 = 1 / nz', 'r1 = 5 % nz', 'r1 = inf * 0', 'r1 = inf - inf', 'r1 = inf % 2',
-    'r1 = 2 % inf', 'r1 = (0 - 2) % inf', 'r1 = inf ** 0', 'r1 = nan ** 0', 'r1 = (0 - inf) ** 0.5', 'r1 = 1e308', 'r1 = inf / inf',
-    'r1 = dd + 1e300', 'r1 = dd + inf', 'r1 = dd + nan', 'r1 = nan + dd', 'r1 = dd + hi', 'r1 = dd - 1', 'r1 = dd - dmax', 'r1 = dmax + 1000',
+    'r1 = 2 % inf', 'r1 = (0 - 2) % inf', 'r1 = inf ** 0', 'r1 = nan ** 0', 'r1 = (0 - inf) ** 0.5', "r1 = numberParseFloat('1e308') * 10", 'r1 = inf / inf',
+    'r1 = dd + 10 ** 300', 'r1 = dd + inf', 'r1 = dd + nan', 'r1 = nan + dd', 'r1 = dd + hi', 'r1 = dd - 1', 'r1 = dd - dmax', 'r1 = dmax + 1000',
     "r1 = '' + dmax", "r1 = dmax + ''", "r1 = '' + arrayNew(dmax)", 'r1 = dmax < dd', "r1 = '' + arrayNew(inf)", "r1 = '' + objectNew('a', nan)",
     "r1 = '' + inf", "r1 = '' + nan", "r1 = '' + nz", 'r1 = arrayNew(nan) == arrayNew(nan)', "r1 = '' + cy", "r1 = cy + ''", 'r1 = cy == cy',
     'r1 = cy < arrayCopy(cy)', "r1 = '' + co", 'r1 = co == co', "r1 = '' + deep", 'r1 = deep == arrayCopy(deep)', 'r1 = deep != deep',
@@ -914,7 +938,7 @@ ADV_LINES = [
     'r1 = datetimeISOFormat(dmax, true)', 'r1 = datetimeISOParse("9999-12-31T23:59:59-12:00")', 'r1 = datetimeISOParse("0001-01-01T00:00:00+14:00")', 'r1 = datetimeYear("x")',
     'r1 = datetimeDay(dmax)', 'r1 = dataParseCSV("a,b", 5)', 'r1 = dataParseCSV("a\\n\\"")', 'r1 = dataValidate(cy)', 'r1 = dataSort(cy, arrayNew(arrayNew("a")))',
     'r1 = dataTop(arrayNew(objectNew("a", 1)), nan)', 'r1 = dataTop(arrayNew(objectNew("a", 1)), inf)', 'r1 = dataJoin(cy, cy, "a")', 'r1 = dataAggregate(arrayNew(co), co)',
-    'r1 = dataFilter(arrayNew(objectNew("a", 1)), "a / 0 == null")', 'r1 = dataFilter(arrayNew(objectNew("a", 1)), "nosuch(a)")',
+    'r1 = dataFilter(arrayNew(objectNew("a", 1)), "a / 0 == null")',
     'r1 = dataCalculatedField(arrayNew(objectNew("a", hx)), "b", "\'\' + a")', 'r1 = dataCalculatedField(arrayNew(objectNew("a", 1)), "b", "sfBad(a)")',
     'r1 = schemaParse("struct")', 'r1 = schemaParse(5)', 'r1 = schemaValidate(co, "T", 1)', 'r1 = schemaValidateTypeModel(cy)', 'r1 = schemaTypeModel(1)',
     'r1 = systemFetch(5)', 'r1 = systemFetch(cy)', 'r1 = systemFetch("nowhere")', 'r1 = systemFetch(objectNew("url", 5))', 'r1 = systemGlobalGet(5)',
@@ -926,7 +950,7 @@ ADV_LINES = [
 ]
 RT_LINES = [      # these END the run with a documented exception
     'r1 = nosuchFunction(1)', 'r1 = sfRaise(1, 2)', 'r1 = arraySort(arrayNew(3, 1, 2), sfRaise)', 'r1 = arrayIndexOf(arrayNew(1, 2), sfRaise)',
-    'jump nowhere', 'r1 = dataFilter(arrayNew(objectNew("a", 1)), "a +")', 'r1 = dataCalculatedField(arrayNew(objectNew("a", 1)), "b", "sfRaise(a)")',
+    'jump nowhere', 'r1 = dataFilter(arrayNew(objectNew("a", 1)), "a +")', 'r1 = dataFilter(arrayNew(objectNew("a", 1)), "nosuch(a)")', 'r1 = dataCalculatedField(arrayNew(objectNew("a", 1)), "b", "sfRaise(a)")',
     "include 'missing.bare'", "include 'broken.bare'", "function ffInc():\n    include 'broken.bare'\nendfunction\nr1 = ffInc()",
     'r2 = systemPartial(sfRaise, 1)\nr1 = r2()', "r1 = null()",
 ]
@@ -1048,7 +1072,7 @@ def streams(ctx):
     if not ctx.quick:
         ctx.streams['binop-host'].exhaustive = False      # the pool is enumerated completely, the value space is not
     stream_wrapper(ctx, mods, {'single': ctx.scale(6, len(ARG_POOL)), 'multi': ctx.scale(4, 60)})
-    stream_exec(ctx, mods, ctx.scale(250, 5000))
+    stream_exec(ctx, mods, ctx.scale(250, 3000))
     stream_expr(ctx, mods, ctx.scale(300, 6000))
     stream_text(ctx, mods, ctx.scale(len(ADV_LINES) + 150, len(ADV_LINES) + 6000))
 
